@@ -179,6 +179,8 @@ where StandardNormal: Distribution<F>, Exp1: Distribution<F>, Open01: Distributi
     alphas.push(dy(vec![1, 1, 1, 1, 1, 1]));      // 1/64
     alphas.push(dy(vec![6, 7, 6]));               // straddling 0.1 (7/64 = 0.109)
     alphas.push(dy(vec![640, 3, 64000, 17, 200]));
+    // straddling 0.1 with the small entries last (which construction is used must not depend on the position of the small entries)
+    alphas.push(dy(vec![128, 192, 3])); alphas.push(dy(vec![64000, 1])); alphas.push(dy(vec![7, 6, 6])); alphas.push(dy(vec![320, 5, 4, 3]));
     for _ in 0..6 { let n = 2 + rnd.below(7) as usize; alphas.push(dy((0..n).map(|_| { let top = if rnd.below(2) == 0 { 6 } else { 400 }; 1 + rnd.below(top) as i64 }).collect())); }
     for len in [2usize, 5, 17, 64] { for shape in 0..3 {
         let v: Vec<F> = (0..len).map(|i| F::of(match shape { 0 => 0.01 + 0.001 * i as f64, 1 => 0.5 + 3.0 * i as f64, _ => if i % 2 == 0 { 0.05 } else { 700.0 } })).collect();
@@ -202,7 +204,7 @@ where StandardNormal: Distribution<F>, Exp1: Distribution<F>, Open01: Distributi
             let mut sum = F::zero(); for &x in &v { sum = sum + x; }
             let ol = |x: F| if x.is_nan() { vec![0, 0, 0] } else { ord_limbs(x) };
             let mut ev = json!({"op": "dir", "ft": F::NAME, "res": "Ok", "n": n, "out": v.iter().map(|&x| ol(x)).collect::<Vec<_>>(), "nonan": nonan,
-                "sum": ol(sum), "outcls": v.iter().map(|&x| class_of(x)).collect::<Vec<_>>(), "api_same": api_same, "w": r1.words(), "wired": false, "stream": tag, "alpha": alpha.iter().map(|x| format!("{:e}", x)).collect::<Vec<_>>()});
+                "sum": ol(sum), "outcls": v.iter().map(|&x| class_of(x)).collect::<Vec<_>>(), "zeros": v.iter().filter(|&&x| x == F::zero()).count(), "api_same": api_same, "w": r1.words(), "wired": false, "stream": tag, "alpha": alpha.iter().map(|x| format!("{:e}", x)).collect::<Vec<_>>()});
             if let Some(a64) = dyadic {
                 // the two documented constructions, built from the crate's public Beta / Gamma on clones of the stream
                 let mut rsb = rng0.clone();
